@@ -6,9 +6,10 @@ Open Scope Z_scope.
 
 (* connection-level facts *)
 Definition DI (d : db) : Prop := dirty d = true -> in_txn d = true.
+(* a savepoint that remembers uncommitted writes lives inside an open transaction *)
+Definition SPI (d : db) : Prop := forall e, In e (sp d) -> fst e = true -> in_txn d = true.
+Definition DBI (d : db) : Prop := DI d /\ SPI d.
 Definition iso_default (d : db) : Prop := iso d = 0 /\ autoc d = false.
-Definition PoolOk (s : st) : Prop := match idle s with Some d => pristine d = true | None => True end.
-Definition PoolIso (s : st) : Prop := match idle s with Some d => iso_default d | None => True end.
 
 Lemma pristine_spec : forall d, pristine d = true <-> in_txn d = false /\ dirty d = false /\ iso_default d.
 Proof.
@@ -16,15 +17,21 @@ Proof.
   rewrite !andb_true_iff, !negb_true_iff, Z.eqb_eq. tauto.
 Qed.
 
+Ltac dd := let X := fresh in intro X; discriminate X.
+
 (* frame of the DBAPI calls: only the fault script and the log change *)
 Definition Fr (s s' : st) : Prop :=
   idle s' = idle s /\ twr_unsound s' = twr_unsound s /\ nconn s' = nconn s.
 Lemma Fr_refl : forall s, Fr s s. Proof. intros; repeat split. Qed.
 Lemma Fr_trans : forall a b c, Fr a b -> Fr b c -> Fr a c.
 Proof. intros a b c (?&?&?) (?&?&?); repeat split; congruence. Qed.
+Lemma Fr_log : forall s k, Fr s (add_log s k). Proof. intros; repeat split. Qed.
 
 Lemma next_fault_frame : forall s c s', next_fault s = (c, s') -> Fr s s'.
 Proof. unfold next_fault, Fr; intros. destruct (faults s); inversion H; subst; cbn; auto. Qed.
+
+Lemma clean_DBI : forall d, DBI (clean d).
+Proof. intros d. split; [intros H; cbn in H; discriminate|intros e H; cbn in H; contradiction]. Qed.
 
 Lemma db_commit_spec : forall d s ok d' s', db_commit d s = (ok, d', s') ->
   Fr s s' /\ (if ok then d' = clean d else d' = d).
@@ -39,44 +46,66 @@ Proof.
   apply next_fault_frame in E. destruct (c =? 1); inversion H; subst; auto.
 Qed.
 
+(* operations that keep in_txn / dirty / the savepoints *)
+Definition SameTx (d d' : db) : Prop := in_txn d' = in_txn d /\ dirty d' = dirty d /\ sp d' = sp d.
+Lemma SameTx_DBI : forall d d', SameTx d d' -> DBI d -> DBI d'.
+Proof. intros d d' (A & B & C) [H1 H2]. split; [unfold DI; rewrite A, B; auto|unfold SPI; rewrite A, C; auto]. Qed.
+
 Lemma db_set_iso_spec : forall l d s d' s', db_set_iso l d s = (d', s') ->
-  Fr s s' /\ in_txn d' = in_txn d /\ dirty d' = dirty d /\ fkbad d' = fkbad d /\ cid d' = cid d /\ (l = 0 -> iso_default d').
+  Fr s s' /\ SameTx d d' /\ (l = 0 -> iso_default d').
 Proof.
-  unfold db_set_iso, iso_default, Fr; intros l d s d' s' H. inversion H; subst; clear H.
-  destruct (l =? 2) eqn:E; cbn; (split; [auto|]); do 4 (split; [reflexivity|]); intros ->; cbn in E; try discriminate; auto.
+  unfold db_set_iso, iso_default, SameTx; intros l d s d' s' H. inversion H; subst; clear H.
+  split; [apply Fr_log|]. destruct (l =? 2) eqn:E; cbn; (split; [auto|]); intros ->; cbn in E; try discriminate; auto.
 Qed.
 
-Lemma run_finalizers_spec : forall n d s d' s', run_finalizers n d s = (d', s') ->
-  Fr s s' /\ in_txn d' = in_txn d /\ dirty d' = dirty d /\ ((n <> O \/ iso_default d) -> iso_default d').
+Lemma run_finalizers_spec : forall fs d s d' s', run_finalizers fs d s = (d', s') ->
+  Fr s s' /\ SameTx d d' /\ ((In true fs \/ iso_default d) -> iso_default d').
 Proof.
-  induction n; intros d s d' s' H; cbn [run_finalizers] in H.
-  - inversion H; subst. split; [apply Fr_refl|]. do 2 (split; [reflexivity|]). intros [?|?]; [congruence|auto].
-  - destruct (db_set_iso 0 d s) as [d1 s1] eqn:E. apply db_set_iso_spec in E.
-    destruct E as (E1 & E2 & E3 & E4 & E5 & E6). apply IHn in H. destruct H as (H1 & H2 & H3 & H4).
-    split; [exact (Fr_trans _ _ _ E1 H1)|]. split; [rewrite H2; exact E2|]. split; [rewrite H3; exact E3|]. intros _. apply H4. right. apply E6. reflexivity.
+  induction fs as [|b r IH]; intros d s d' s' H; cbn [run_finalizers] in H.
+  - inversion H; subst. split; [apply Fr_refl|]. split; [repeat split|]. intros [[]|?]; auto.
+  - destruct b.
+    + destruct (db_set_iso 0 d s) as [d1 s1] eqn:E. apply db_set_iso_spec in E. destruct E as (E1 & E2 & E3).
+      apply IH in H. destruct H as (H1 & H2 & H3).
+      split; [exact (Fr_trans _ _ _ E1 H1)|]. split; [destruct E2 as (?&?&?), H2 as (?&?&?); repeat split; congruence|].
+      intros _. apply H3. right. apply E3. reflexivity.
+    + apply IH in H. destruct H as (H1 & H2 & H3). split; [auto|]. split; [auto|].
+      intros [[Hc|Hi]|Hd]; [discriminate|apply H3; auto|apply H3; auto].
 Qed.
+
+Definition PoolAll (reset : rstyle) (s : st) : Prop :=
+  match idle s with
+  | Some d => iso_default d /\ DBI d /\ (reset <> RNone -> pristine d = true)
+  | None => True
+  end.
+(* transaction_was_reset=True never reaches _reset over an open DBAPI transaction *)
+Definition Up (s s' : st) : Prop := twr_unsound s' = true -> twr_unsound s = true.
+Lemma Fr_Up : forall s s', Fr s s' -> Up s s'.
+Proof. intros s s' (F1 & F2 & F3). unfold Up. rewrite F2. auto. Qed.
+Lemma Up_trans : forall a b c, Up a b -> Up b c -> Up a c.
+Proof. unfold Up; auto. Qed.
 
 Section P.
 Variable reset : rstyle.
 Variable kind : pkind.
+Variable begin_emits : bool.
+Variable engine_iso : Z.
 
-(* what _finalize_fairy + checkin leave in the pool *)
-Lemma finalize_spec : forall d nf twr s,
-  let s' := finalize reset kind d nf twr s in
-  nconn s' = nconn s /\
-  (twr_unsound s' = true -> twr_unsound s = true \/ (twr = true /\ in_txn d = true)) /\
-  ((nf = O -> iso_default d) -> PoolIso s') /\
-  ((nf = O -> iso_default d) -> DI d -> reset <> RNone -> (twr = true -> reset = RRollback -> in_txn d = false) -> PoolOk s').
+(* every characteristic that was set has a pending finaliser *)
+Definition CIf (d : db) (fs : list bool) : Prop := iso_default d \/ In true fs.
+Definition CI (c : cst) : Prop := CIf (cdb c) (fins c).
+
+(* _finalize_fairy + checkin: what is left in the pool *)
+Lemma finalize_end : forall d fs twr s, CIf d fs -> DBI d -> (twr = true -> in_txn d = false) ->
+  let s' := finalize reset kind d fs twr s in
+  Up s s' /\ PoolAll reset s'.
 Proof.
-  intros d nf twr s. unfold finalize.
+  intros d fs twr s HC HD Ht. cbv zeta. unfold finalize.
   set (s0 := if twr && in_txn d then set_unsound s else s).
-  assert (F0 : idle s0 = idle s /\ nconn s0 = nconn s /\
-               (twr_unsound s0 = true -> twr_unsound s = true \/ (twr = true /\ in_txn d = true))).
-  { subst s0. destruct twr, (in_txn d); cbn; auto 10. }
-  destruct F0 as (F1 & F3 & F4).
+  assert (F0 : s0 = s) by (subst s0; destruct twr; cbn; auto; rewrite Ht; auto).
+  rewrite F0. clear F0 s0.
   match goal with |- context [match ?e with (_, _) => _ end] =>
     match type of e with (bool * db * st)%type => destruct e as [[ok d1] s1] eqn:E end end.
-  assert (G : Fr s0 s1 /\
+  assert (G : Fr s s1 /\
               (ok = true -> (d1 = clean d /\ reset <> RNone) \/ (d1 = d /\ (reset = RNone \/ (reset = RRollback /\ twr = true))))).
   { destruct reset.
     - destruct twr.
@@ -84,301 +113,206 @@ Proof.
       + apply db_rollback_spec in E. destruct E as [E1 E2]. split; [auto|]. intros ->. left. split; [auto|discriminate].
     - apply db_commit_spec in E. destruct E as [E1 E2]. split; [auto|]. intros ->. left. split; [auto|discriminate].
     - inversion E; subst. split; [apply Fr_refl|]. intros _. right. auto. }
-  destruct G as ((G1 & G3 & G4) & G5).
+  destruct G as (G1 & G5).
   destruct ok.
-  - destruct (run_finalizers nf d1 s1) as [d2 s2] eqn:Er. apply run_finalizers_spec in Er.
-    destruct Er as ((R1 & R3 & R4) & R5 & R6 & R7).
-    cbn. split; [congruence|]. split; [intros; apply F4; congruence|].
-    assert (I1 : (nf = O -> iso_default d) -> iso_default d2).
-    { intros Hd. apply R7. destruct nf; [right|left; discriminate].
-      specialize (Hd eq_refl). destruct (G5 eq_refl) as [[-> _]|[-> _]]; auto. }
-    split.
-    + intros Hd. unfold PoolIso; cbn. destruct kind; cbn; auto.
-    + intros Hd HDI Hr Ht. unfold PoolOk; cbn. destruct kind; cbn; auto;
-        apply pristine_spec; (split; [|split; [|auto]]); rewrite ?R5, ?R6;
-        destruct (G5 eq_refl) as [[-> _]|[-> [->|[-> ->]]]]; cbn; auto; try congruence;
-        try (apply Ht; auto);
-        try (destruct (dirty d) eqn:Ed; auto; rewrite HDI in *; auto; rewrite Ht in *; auto; discriminate).
-  - cbn. split; [congruence|]. split; [intros; apply F4; congruence|].
-    unfold PoolIso, PoolOk; cbn. auto.
+  2:{ split; [unfold Up; cbn; destruct G1 as (_ & G2 & _); rewrite G2; auto|unfold PoolAll; cbn; auto]. }
+  destruct (run_finalizers (rev fs) d1 s1) as [d2 s2] eqn:Er. apply run_finalizers_spec in Er.
+  destruct Er as (R1 & R2 & R7).
+  split.
+  { unfold Up; cbn. destruct G1 as (_ & G2 & _), R1 as (_ & R3 & _). rewrite R3, G2; auto. }
+  assert (I2 : iso_default d2).
+  { apply R7. destruct HC as [Hd|Hi]; [right|left; apply in_rev in Hi; rewrite rev_involutive in Hi; apply in_rev; rewrite rev_involutive; exact Hi].
+    destruct (G5 eq_refl) as [[-> _]|[-> _]]; auto. }
+  assert (D1 : DBI d1) by (destruct (G5 eq_refl) as [[-> _]|[-> _]]; [apply clean_DBI|exact HD]).
+  pose proof (SameTx_DBI _ _ R2 D1) as D2.
+  unfold PoolAll; cbn. destruct kind; cbn; auto; (split; [exact I2|split; [exact D2|]]); intros Hr;
+    apply pristine_spec; destruct R2 as (Ra & Rb & Rc); rewrite Ra, Rb;
+    (destruct (G5 eq_refl) as [[-> _]|[-> [->|[-> ->]]]]; [cbn; auto|congruence|]);
+    (split; [apply Ht; auto|split; [|exact I2]]);
+    destruct HD as [HD1 _]; destruct (dirty d) eqn:Ed; auto; rewrite HD1 in *; auto; rewrite Ht in *; auto; discriminate.
 Qed.
 
-(* ---- one operation of a user *)
-(* every characteristic that was set has a pending finaliser *)
-Definition CI (c : cst) : Prop := nfin c = O -> iso_default (cdb c).
-(* transaction_was_reset=True never reaches _reset over an open DBAPI transaction *)
-Definition Up (s s' : st) : Prop := twr_unsound s' = true -> twr_unsound s = true.
-
-Ltac dd := let X := fresh in intro X; discriminate X.
-
-Lemma Fr_Up : forall s s', Fr s s' -> Up s s'.
-Proof. intros s s' (F1 & F2 & F3). unfold Up. rewrite F2. auto. Qed.
-
-Lemma clean_DI : forall d, DI (clean d).
-Proof. intros d H. cbn in H. discriminate. Qed.
-
-(* the ways a checkout ends through _finalize_fairy *)
-Lemma finalize_end : forall d nf twr s, (nf = O -> iso_default d) -> DI d ->
-  (twr = true -> in_txn d = false) ->
-  let s' := finalize reset kind d nf twr s in
-  Up s s' /\ PoolIso s' /\ (reset <> RNone -> PoolOk s').
+(* ---- the pieces of one operation *)
+Lemma autobegin_spec : forall c s c1 s1, autobegin begin_emits c s = (c1, s1) ->
+  Fr s s1 /\ fins c1 = fins c /\ done c1 = done c /\ iso (cdb c1) = iso (cdb c) /\ autoc (cdb c1) = autoc (cdb c) /\
+  (DBI (cdb c) -> DBI (cdb c1)).
 Proof.
-  intros d nf twr s HC HD Ht. destruct (finalize_spec d nf twr s) as (F2 & F3 & F4 & F5). cbv zeta.
-  split; [|split; [auto|]].
-  - unfold Up. intros H. destruct (F3 H) as [?|[Hw Hi]]; auto. rewrite Ht in Hi; auto. discriminate.
-  - intros Hr. apply F5; auto.
+  unfold autobegin; intros c s c1 s1 H. destruct (txn c).
+  - inversion H; subst. split; [apply Fr_refl|]. auto 10.
+  - destruct (begin_emits && negb (in_txn (cdb c))); inversion H; subst; cbn.
+    + split; [apply Fr_log|]. do 4 (split; [reflexivity|]). intros [H1 H2]. split; [intros _; reflexivity|intros e He _; reflexivity].
+    + split; [apply Fr_refl|]. auto 10.
 Qed.
 
-Lemma do_op_spec : forall o c s code c' s', do_op reset kind o c s = (code, c', s') ->
-  CI c -> DI (cdb c) -> done c = false ->
-  CI c' /\ DI (cdb c') /\ Up s s' /\
-  (done c' = false -> idle s' = idle s) /\
-  (done c' = true -> PoolIso s' /\ (reset <> RNone -> PoolOk s')).
+Lemma cancel_nested_frame : forall c, cdb (cancel_nested c) = cdb c /\ fins (cancel_nested c) = fins c /\
+  done (cancel_nested c) = done c /\ txn (cancel_nested c) = txn c.
+Proof. intros c. unfold cancel_nested. destruct (ntop c); cbn; auto. Qed.
+
+Lemma root_close_spec : forall c s ok c1 s1, root_close c s = (ok, c1, s1) ->
+  Fr s s1 /\ fins c1 = fins c /\ done c1 = done c /\
+  (cdb c1 = clean (cdb c) \/ cdb c1 = cdb c) /\
+  (txn c = Some true -> ok = true -> cdb c1 = clean (cdb c)) /\
+  (txn c <> None -> txn c1 = None).
 Proof.
-  intros o c s code c' s' H HC HD Hdn. unfold CI in *.
-  assert (U0 : Up s s) by (apply Fr_Up, Fr_refl).
-  destruct c as [d t nf dn]. cbn [cdb txn nfin done] in *. subst dn.
-  destruct o; cbn [do_op cdb txn nfin done] in H.
-  - (* write *)
-    destruct t as [[|]|]; inversion H; subst; clear H; cbn [cdb txn nfin done];
-      (split; [|split; [|split; [auto|split; [auto|dd]]]]); auto.
-    + intros Hn. specialize (HC Hn). unfold iso_default in *. destruct (autoc d) eqn:Ea; cbn; rewrite ?Ea; tauto.
-    + unfold DI in *. destruct (autoc d); cbn; auto.
-    + intros Hn. specialize (HC Hn). unfold iso_default in *. destruct (autoc d) eqn:Ea; cbn; rewrite ?Ea; tauto.
-    + unfold DI in *. destruct (autoc d); cbn; auto.
+  unfold root_close; intros c s ok c1 s1 H. destruct (txn c) as [[|]|] eqn:Et.
+  - destruct (db_rollback (cdb c) s) as [[ok' d1] s2] eqn:E. apply db_rollback_spec in E. destruct E as [E1 E2].
+    inversion H; subst; clear H. destruct ok.
+    + subst d1. destruct (cancel_nested_frame (set_txn (set_cdb c (clean (cdb c))) None)) as (A & B & C & D).
+      rewrite A, B, C, D. cbn. auto 10.
+    + subst d1. cbn. split; auto. split; auto. split; auto. split; auto. split; [intros _ Hf; discriminate|auto].
+  - inversion H; subst; clear H. destruct (cancel_nested_frame c) as (A & B & C & D). cbn. rewrite A, B, C.
+    split; [apply Fr_refl|]. split; auto. split; auto. split; auto. split; [dd|auto].
+  - inversion H; subst; clear H. split; [apply Fr_refl|]. split; auto. split; auto. split; auto. split; [dd|intros Hn; congruence].
+Qed.
+
+Lemma db_write_spec : forall b d, iso (db_write b d) = iso d /\ autoc (db_write b d) = autoc d /\ (DBI d -> DBI (db_write b d)).
+Proof.
+  intros b d. unfold db_write. destruct (autoc d) eqn:Ea; cbn; auto.
+  split; auto. split; auto. intros [H1 H2]. split; [intros _; reflexivity|intros e He _; reflexivity].
+Qed.
+
+Lemma In_firstn : forall A (l : list A) n x, In x (firstn n l) -> In x l.
+Proof. induction l; intros n x H; destruct n; cbn in *; try contradiction. destruct H; [auto|right; eauto]. Qed.
+
+Lemma db_sp_ops_spec :
+  (forall d s d' s', db_savepoint d s = (d', s') -> Fr s s' /\ iso d' = iso d /\ autoc d' = autoc d /\ (DBI d -> DBI d')) /\
+  (forall k d s d' s', db_rollback_to k d s = (d', s') -> Fr s s' /\ iso d' = iso d /\ autoc d' = autoc d /\ (DBI d -> DBI d')) /\
+  (forall k d s d' s', db_release k d s = (d', s') -> Fr s s' /\ iso d' = iso d /\ autoc d' = autoc d /\ (DBI d -> DBI d')).
+Proof.
+  split; [|split].
+  - unfold db_savepoint; intros d s d' s' H. inversion H; subst; clear H. cbn. split; [apply Fr_log|]. split; auto. split; auto.
+    intros [H1 H2]. split; [exact H1|]. intros e He Hf. cbn in He. apply in_app_iff in He as [He|[He|[]]]; [eapply H2; eauto|].
+    subst e. cbn in Hf. apply H1; auto.
+  - unfold db_rollback_to; intros k d s d' s' H. inversion H; subst; clear H. split; [apply Fr_log|].
+    destruct (nth_error (sp d) k) as [[dr fk]|] eqn:En; cbn; auto.
+    split; auto. split; auto. intros [H1 H2]. split.
+    + intros Hd. cbn in Hd. subst dr. apply (H2 (true, fk)); auto. eapply nth_error_In; eauto.
+    + intros e He Hf. cbn in He. apply In_firstn in He. eapply H2; eauto.
+  - unfold db_release; intros k d s d' s' H. inversion H; subst; clear H. cbn. split; [apply Fr_log|]. split; auto. split; auto.
+    intros [H1 H2]. split; [exact H1|]. intros e He Hf. cbn in He. apply In_firstn in He. eapply H2; eauto.
+Qed.
+
+Definition CInv (c : cst) : Prop := CI c /\ DBI (cdb c).
+
+(* an operation that is not an end keeps the invariant and the pool *)
+Definition Cont (c : cst) (s : st) (c' : cst) (s' : st) : Prop :=
+  CInv c' /\ Fr s s' /\ done c' = false.
+
+Lemma CIf_same : forall d d' fs, iso d' = iso d -> autoc d' = autoc d -> CIf d fs -> CIf d' fs.
+Proof. unfold CIf, iso_default; intros d d' fs H1 H2 [H|H]; [left; rewrite H1, H2; auto|auto]. Qed.
+
+Lemma do_op_spec : forall o c s code c' s', do_op reset kind begin_emits o c s = (code, c', s') ->
+  CInv c -> done c = false ->
+  (Cont c s c' s') \/ (done c' = true /\ Up s s' /\ PoolAll reset s').
+Proof.
+  intros o c s code c' s' H [HC HD] Hdn. unfold CI in HC.
+  assert (K0 : Cont c s c s) by (split; [split; auto|split; [apply Fr_refl|auto]]).
+  destruct (db_sp_ops_spec) as (SP1 & SP2 & SP3).
+  assert (WR : forall b, (let (c1, s1) := autobegin begin_emits c s in
+               (0, set_cdb c1 (db_write b (cdb c1)), s1)) = (code, c', s') -> Cont c s c' s').
+  { intros b Hw. destruct (autobegin begin_emits c s) as [c1 s1] eqn:Ea. apply autobegin_spec in Ea.
+    destruct Ea as (A1 & A2 & A3 & A4 & A5 & A6). inversion Hw; subst; clear Hw.
+    destruct (db_write_spec b (cdb c1)) as (W1 & W2 & W3).
+    split; [split|split; [auto|cbn; congruence]].
+    - unfold CI; cbn. rewrite A2. eapply CIf_same; [| |exact HC]; congruence.
+    - cbn. auto. }
+  destruct o; cbn [do_op] in H.
+  - (* write *) destruct (invalid_state c); [inversion H; subst; auto|]. left. eapply WR; eauto.
   - (* commit *)
-    destruct t as [[|]|].
-    + destruct (db_commit d s) as [[ok d1] s1] eqn:E. apply db_commit_spec in E. destruct E as [E1 E2].
-      destruct ok; subst d1; inversion H; subst; clear H; cbn [cdb txn nfin done].
-      * split; [exact HC|]. split; [apply clean_DI|]. split; [apply Fr_Up; auto|]. split; [destruct E1; auto|dd].
-      * split; [exact HC|]. split; [exact HD|]. split; [apply Fr_Up; auto|]. split; [destruct E1; auto|dd].
-    + inversion H; subst; clear H; cbn [cdb txn nfin done]. split; auto. split; auto. split; auto. split; auto. dd.
-    + inversion H; subst; clear H; cbn [cdb txn nfin done]. split; auto. split; auto. split; auto. split; auto. dd.
+    destruct (txn c) as [[|]|]; try (inversion H; subst; auto; fail).
+    destruct (db_commit (cdb c) s) as [[ok d1] s1] eqn:E. apply db_commit_spec in E. destruct E as [E1 E2].
+    destruct (cancel_nested_frame (set_cdb c d1)) as (A & B & C & D).
+    left. destruct ok; subst d1; inversion H; subst; clear H; (split; [split|split; [auto|cbn; congruence]]);
+      unfold CI; cbn; rewrite ?A, ?B; cbn; auto; try apply clean_DBI.
+    eapply CIf_same; [| |exact HC]; reflexivity.
   - (* rollback *)
-    destruct t as [[|]|].
-    + destruct (db_rollback d s) as [[ok d1] s1] eqn:E. apply db_rollback_spec in E. destruct E as [E1 E2].
-      destruct ok; subst d1; inversion H; subst; clear H; cbn [cdb txn nfin done].
-      * split; [exact HC|]. split; [apply clean_DI|]. split; [apply Fr_Up; auto|]. split; [destruct E1; auto|dd].
-      * split; [exact HC|]. split; [exact HD|]. split; [apply Fr_Up; auto|]. split; [destruct E1; auto|dd].
-    + inversion H; subst; clear H; cbn [cdb txn nfin done]. split; auto. split; auto. split; auto. split; auto. dd.
-    + inversion H; subst; clear H; cbn [cdb txn nfin done]. split; auto. split; auto. split; auto. split; auto. dd.
-  - (* isolation level *)
-    destruct t as [[|]|]; try (inversion H; subst; clear H; cbn; split; auto; split; auto; split; auto; split; auto; dd).
-    + destruct (db_set_iso 1 d s) as [d1 s1] eqn:E. apply db_set_iso_spec in E. destruct E as (E1 & E2 & E3 & E4 & E5 & E6).
-      inversion H; subst; clear H; cbn. split; [dd|]. split; [unfold DI; rewrite E2, E3; auto|].
-      split; [apply Fr_Up; auto|]. split; [destruct E1; auto|dd].
-    + destruct (db_set_iso 1 d s) as [d1 s1] eqn:E. apply db_set_iso_spec in E. destruct E as (E1 & E2 & E3 & E4 & E5 & E6).
-      inversion H; subst; clear H; cbn. split; [dd|]. split; [unfold DI; rewrite E2, E3; auto|].
-      split; [apply Fr_Up; auto|]. split; [destruct E1; auto|dd].
-  - (* autocommit *)
-    destruct t as [[|]|]; try (inversion H; subst; clear H; cbn; split; auto; split; auto; split; auto; split; auto; dd).
-    + destruct (db_set_iso 2 d s) as [d1 s1] eqn:E. apply db_set_iso_spec in E. destruct E as (E1 & E2 & E3 & E4 & E5 & E6).
-      inversion H; subst; clear H; cbn. split; [dd|]. split; [unfold DI; rewrite E2, E3; auto|].
-      split; [apply Fr_Up; auto|]. split; [destruct E1; auto|dd].
-    + destruct (db_set_iso 2 d s) as [d1 s1] eqn:E. apply db_set_iso_spec in E. destruct E as (E1 & E2 & E3 & E4 & E5 & E6).
-      inversion H; subst; clear H; cbn. split; [dd|]. split; [unfold DI; rewrite E2, E3; auto|].
-      split; [apply Fr_Up; auto|]. split; [destruct E1; auto|dd].
+    destruct (root_close c s) as [[ok c1] s1] eqn:E. apply root_close_spec in E.
+    destruct E as (R1 & R2 & R3 & R4 & R5 & R6). inversion H; subst; clear H.
+    left. split; [split|split; [auto|congruence]].
+    + unfold CI. rewrite R2. destruct R4 as [->|->]; auto. eapply CIf_same; [| |exact HC]; reflexivity.
+    + destruct R4 as [->|->]; auto. apply clean_DBI.
   - (* failing statement *)
-    destruct t as [[|]|]; inversion H; subst; clear H; cbn; split; auto; split; auto; split; auto; split; auto; dd.
+    destruct (invalid_state c); [inversion H; subst; auto|].
+    destruct (autobegin begin_emits c s) as [c1 s1] eqn:Ea. apply autobegin_spec in Ea.
+    destruct Ea as (A1 & A2 & A3 & A4 & A5 & A6). inversion H; subst; clear H.
+    left. split; [split; [unfold CI; rewrite A2; eapply CIf_same; [| |exact HC]; congruence|auto]|split; [auto|congruence]].
   - (* begin *)
-    destruct t as [[|]|]; inversion H; subst; clear H; cbn; split; auto; split; auto; split; auto; split; auto; dd.
+    destruct (txn c); [inversion H; subst; auto|].
+    destruct (autobegin begin_emits c s) as [c1 s1] eqn:Ea. apply autobegin_spec in Ea.
+    destruct Ea as (A1 & A2 & A3 & A4 & A5 & A6). inversion H; subst; clear H.
+    left. split; [split; [unfold CI; rewrite A2; eapply CIf_same; [| |exact HC]; congruence|auto]|split; [auto|congruence]].
   - (* write violating a deferred constraint *)
-    destruct t as [[|]|]; inversion H; subst; clear H; cbn [cdb txn nfin done];
-      (split; [|split; [|split; [auto|split; [auto|dd]]]]); auto.
-    + intros Hn. specialize (HC Hn). unfold iso_default in *. destruct (autoc d) eqn:Ea; cbn; rewrite ?Ea; tauto.
-    + unfold DI in *. destruct (autoc d); cbn; auto.
-    + intros Hn. specialize (HC Hn). unfold iso_default in *. destruct (autoc d) eqn:Ea; cbn; rewrite ?Ea; tauto.
-    + unfold DI in *. destruct (autoc d); cbn; auto.
+    destruct (invalid_state c); [inversion H; subst; auto|]. left. eapply WR; eauto.
   - (* close *)
-    destruct t as [[|]|].
-    + destruct (db_rollback d s) as [[ok d1] s1] eqn:E. apply db_rollback_spec in E. destruct E as [E1 E2].
-      destruct ok; subst; inversion H; subst; clear H; cbn [cdb done nfin txn].
-      * destruct (finalize_end (clean d) nf true s1) as (G1 & G2 & G3); auto; [apply clean_DI|].
-        split; auto. split; [apply clean_DI|]. split; [|split; [dd|auto]].
-        destruct E1 as (F1 & F2 & F3). unfold Up in *. rewrite <- F2. exact G1.
-      * split; auto. split; auto. split; [apply Fr_Up; auto|]. split; [destruct E1; auto|dd].
-    + inversion H; subst; clear H; cbn [cdb done nfin txn].
-      destruct (finalize_end d nf false s) as (G1 & G2 & G3); auto; [intros; discriminate|].
-      split; auto. split; auto. split; auto. split; [dd|auto].
-    + inversion H; subst; clear H; cbn [cdb done nfin txn].
-      destruct (finalize_end d nf false s) as (G1 & G2 & G3); auto; [intros; discriminate|].
-      split; auto. split; auto. split; auto. split; [dd|auto].
-  - (* drop: the weakref callback *)
-    inversion H; subst; clear H; cbn [cdb done nfin txn].
-    destruct (finalize_end d nf false s) as (G1 & G2 & G3); auto; [intros; discriminate|].
-    split; auto. split; auto. split; auto. split; [dd|auto].
+    right. destruct (txn c) as [active|] eqn:Et.
+    + destruct (root_close c s) as [[ok c1] s1] eqn:E. apply root_close_spec in E.
+      destruct E as (R1 & R2 & R3 & R4 & R5 & R6).
+      destruct ok; inversion H; subst; clear H.
+      * cbn [done]. split; [reflexivity|].
+        assert (HC1 : CIf (cdb c1) (fins c1)).
+        { rewrite R2. destruct R4 as [->|->]; auto. eapply CIf_same; [| |exact HC]; reflexivity. }
+        assert (HD1 : DBI (cdb c1)) by (destruct R4 as [->|->]; auto; apply clean_DBI).
+        destruct (finalize_end (cdb c1) (fins c1) active s1 HC1 HD1) as [G1 G2].
+        { intros ->. rewrite (R5 Et eq_refl). reflexivity. }
+        split; [|exact G2]. eapply Up_trans; [apply Fr_Up; exact R1|exact G1].
+      * exfalso. (* the error escapes close(): not an end *)
+        cbn in *. congruence.
+    + inversion H; subst; clear H. cbn [done]. split; [reflexivity|].
+      destruct (finalize_end (cdb c) (fins c) false s HC HD) as [G1 G2]; [dd|auto].
+  - (* drop *)
+    right. inversion H; subst; clear H. cbn [done]. split; [reflexivity|].
+    destruct (finalize_end (cdb c) (fins c) false s HC HD) as [G1 G2]; [dd|auto].
   - (* invalidate *)
-    inversion H; subst; clear H; cbn [cdb done nfin txn].
-    split; auto. split; auto. split; [unfold Up; cbn; auto|]. split; [dd|].
-    intros _. unfold PoolIso, PoolOk; cbn. auto.
+    right. inversion H; subst; clear H. cbn [done]. split; [reflexivity|].
+    split; [unfold Up; cbn; auto|unfold PoolAll; cbn; auto].
+  - (* execution_options *)
+    destruct (negb (level =? 0) || token); [|inversion H; subst; auto].
+    destruct (negb (level =? 0) && match txn c with Some true => true | _ => false end); [inversion H; subst; auto|].
+    destruct (level =? 0) eqn:El.
+    + inversion H; subst; clear H. left. split; [split|split; [apply Fr_refl|reflexivity]]; cbn; auto.
+      unfold CI; cbn. destruct HC as [Hd|Hi]; [left; auto|right; apply in_app_iff; auto].
+    + destruct (db_set_iso level (cdb c) s) as [d1 s1] eqn:E. apply db_set_iso_spec in E. destruct E as (E1 & E2 & E3).
+      inversion H; subst; clear H. left. split; [split|split; [auto|reflexivity]]; cbn.
+      * unfold CI; cbn. right. apply in_app_iff. right. left. reflexivity.
+      * eapply SameTx_DBI; eauto.
+  - (* begin_nested *)
+    destruct (autobegin begin_emits c s) as [c1 s1] eqn:Ea. apply autobegin_spec in Ea.
+    destruct Ea as (A1 & A2 & A3 & A4 & A5 & A6).
+    assert (K1 : Cont c s c1 s1).
+    { split; [split; [unfold CI; rewrite A2; eapply CIf_same; [| |exact HC]; congruence|auto]|split; [auto|congruence]]. }
+    destruct (invalid_state c1); [inversion H; subst; auto|].
+    destruct (db_savepoint (cdb c1) s1) as [d1 s2] eqn:E. apply SP1 in E. destruct E as (E1 & E2 & E3 & E4).
+    inversion H; subst; clear H. left. destruct K1 as [[K1 K2] [K3 K4]].
+    split; [split|split; [eapply Fr_trans; eauto|reflexivity]]; cbn; auto.
+    unfold CI; cbn. eapply CIf_same; [| |exact K1]; congruence.
+  - (* nested commit *)
+    destruct (length (ns c)) as [|i]; [inversion H; subst; auto|].
+    destruct (nth_error (ns c) i) as [n|]; [|inversion H; subst; auto].
+    destruct (n_active n); [|inversion H; subst; auto].
+    destruct (invalid_state c).
+    + inversion H; subst; clear H. left. split; [split; auto|split; [apply Fr_refl|reflexivity]].
+    + destruct (db_release (n_sp n) (cdb c) s) as [d1 s1] eqn:E. apply SP3 in E. destruct E as (E1 & E2 & E3 & E4).
+      inversion H; subst; clear H. left. split; [split|split; [auto|reflexivity]]; cbn; auto.
+      unfold CI; cbn. eapply CIf_same; [| |exact HC]; congruence.
+  - (* nested rollback *)
+    destruct (length (ns c)) as [|i]; [inversion H; subst; auto|].
+    destruct (nth_error (ns c) i) as [n|]; [|inversion H; subst; auto].
+    match type of H with (if ?b && _ then _ else _) = _ => destruct b end; cbn [andb] in H.
+    + destruct (invalid_state c).
+      * inversion H; subst; clear H. left. split; [split; auto|split; [apply Fr_refl|reflexivity]].
+      * destruct (db_rollback_to (n_sp n) (cdb c) s) as [d1 s1] eqn:E. apply SP2 in E. destruct E as (E1 & E2 & E3 & E4).
+        inversion H; subst; clear H. left. split; [split|split; [auto|reflexivity]]; cbn; auto.
+        unfold CI; cbn. eapply CIf_same; [| |exact HC]; congruence.
+    + inversion H; subst; clear H. left. split; [split; auto|split; [apply Fr_refl|reflexivity]].
+  - (* nested close *)
+    destruct (length (ns c)) as [|i]; [inversion H; subst; auto|].
+    destruct (nth_error (ns c) i) as [n|]; [|inversion H; subst; auto].
+    match type of H with (if ?b && _ then _ else _) = _ => destruct b end; cbn [andb] in H.
+    + destruct (invalid_state c).
+      * inversion H; subst; clear H. left. split; [split; auto|split; [apply Fr_refl|reflexivity]].
+      * destruct (db_rollback_to (n_sp n) (cdb c) s) as [d1 s1] eqn:E. apply SP2 in E. destruct E as (E1 & E2 & E3 & E4).
+        inversion H; subst; clear H. left. split; [split|split; [auto|reflexivity]]; cbn; auto.
+        unfold CI; cbn. eapply CIf_same; [| |exact HC]; congruence.
+    + inversion H; subst; clear H. left. split; [split; auto|split; [apply Fr_refl|reflexivity]].
 Qed.
-
-Lemma Up_trans : forall a b c, Up a b -> Up b c -> Up a c.
-Proof.
-  unfold Up; intros a b c A B H. auto.
-Qed.
-
-Lemma do_ops_spec : forall ops c s codes codes' c' s', do_ops reset kind ops c s codes = (codes', c', s') ->
-  CI c -> DI (cdb c) -> done c = false ->
-  CI c' /\ DI (cdb c') /\ Up s s' /\
-  (done c' = false -> idle s' = idle s) /\
-  (done c' = true -> PoolIso s' /\ (reset <> RNone -> PoolOk s')).
-Proof.
-  induction ops as [|o r IH]; intros c s codes codes' c' s' H HC HD Hd; cbn [do_ops] in H.
-  - inversion H; subst. split; [exact HC|]. split; [exact HD|]. split; [apply Fr_Up, Fr_refl|]. split; [reflexivity|]. rewrite Hd. dd.
-  - destruct (do_op reset kind o c s) as [[code c1] s1] eqn:E.
-    destruct (do_op_spec _ _ _ _ _ _ E HC HD Hd) as (A1 & A2 & A3 & A4 & A5).
-    destruct (done c1) eqn:Ed.
-    + inversion H; subst. rewrite Ed. split; [exact A1|]. split; [exact A2|]. split; [exact A3|]. split; [dd|intros _; apply A5; reflexivity].
-    + destruct (IH _ _ _ _ _ _ H A1 A2 Ed) as (B1 & B2 & B3 & B4 & B5).
-      split; [exact B1|]. split; [exact B2|]. split; [eapply Up_trans; eauto|]. split; [|exact B5].
-      intros Hf. rewrite B4, A4; auto.
-Qed.
-
-(* the connection kept by the pool always satisfies dirty -> in_txn and has default characteristics *)
-Definition PoolDI (s : st) : Prop := match idle s with Some d => DI d | None => True end.
-
-Lemma finalize_DI : forall d nf twr s, DI d -> PoolDI (finalize reset kind d nf twr s).
-Proof.
-  intros d nf twr s HD. unfold finalize.
-  set (s0 := if twr && in_txn d then set_unsound s else s).
-  match goal with |- context [match ?e with (_, _) => _ end] =>
-    match type of e with (bool * db * st)%type => destruct e as [[ok d1] s1] eqn:E end end.
-  assert (G : ok = true -> d1 = clean d \/ d1 = d).
-  { destruct reset.
-    - destruct twr; [inversion E; auto|]. apply db_rollback_spec in E. destruct E as [_ E2]. intros ->; auto.
-    - apply db_commit_spec in E. destruct E as [_ E2]. intros ->; auto.
-    - inversion E; auto. }
-  destruct ok; [|unfold PoolDI; cbn; auto].
-  destruct (run_finalizers nf d1 s1) as [d2 s2] eqn:Er. apply run_finalizers_spec in Er.
-  destruct Er as (Rf & R5 & R6 & R7).
-  assert (D2 : DI d2).
-  { unfold DI. rewrite R5, R6. destruct (G eq_refl) as [Hg|Hg]; rewrite Hg; [apply clean_DI|exact HD]. }
-  unfold PoolDI. cbn. destruct kind; cbn; auto.
-Qed.
-
-Lemma do_op_DI : forall o c s code c' s', do_op reset kind o c s = (code, c', s') ->
-  DI (cdb c) -> PoolDI s -> done c = false -> done c' = true -> PoolDI s'.
-Proof.
-  intros o c s code c' s' H HD HP Hd0 Hdn. destruct c as [d t nf dn]. cbn [cdb done] in *. subst dn.
-  assert (ND : forall c1, done c1 = false -> (code, c1, s') = (code, c', s') -> False)
-    by (intros c1 Hc1 Heq; inversion Heq; subst; congruence).
-  destruct o; cbn [do_op cdb txn nfin done] in H.
-  - exfalso. destruct t as [[|]|]; inversion H; subst; cbn in Hdn; discriminate Hdn.
-  - exfalso. destruct t as [[|]|]; [destruct (db_commit d s) as [[[|] d1] s1]| |]; inversion H; subst; cbn in Hdn; discriminate Hdn.
-  - exfalso. destruct t as [[|]|]; [destruct (db_rollback d s) as [[[|] d1] s1]| |]; inversion H; subst; cbn in Hdn; discriminate Hdn.
-  - exfalso. destruct t as [[|]|]; [|destruct (db_set_iso 1 d s) as [d1 s1]|destruct (db_set_iso 1 d s) as [d1 s1]];
-      inversion H; subst; cbn in Hdn; discriminate Hdn.
-  - exfalso. destruct t as [[|]|]; [|destruct (db_set_iso 2 d s) as [d1 s1]|destruct (db_set_iso 2 d s) as [d1 s1]];
-      inversion H; subst; cbn in Hdn; discriminate Hdn.
-  - exfalso. destruct t as [[|]|]; inversion H; subst; cbn in Hdn; discriminate Hdn.
-  - exfalso. destruct t as [[|]|]; inversion H; subst; cbn in Hdn; discriminate Hdn.
-  - exfalso. destruct t as [[|]|]; inversion H; subst; cbn in Hdn; discriminate Hdn.
-  - (* close *)
-    destruct t as [[|]|].
-    + destruct (db_rollback d s) as [[ok d1] s1] eqn:E. apply db_rollback_spec in E. destruct E as [E1 E2].
-      destruct ok; subst; inversion H; subst; [|cbn in Hdn; discriminate].
-      apply finalize_DI, clean_DI.
-    + inversion H; subst. apply finalize_DI; auto.
-    + inversion H; subst. apply finalize_DI; auto.
-  - inversion H; subst. apply finalize_DI; auto.
-  - inversion H; subst. unfold PoolDI; cbn; auto.
-Qed.
-
-Lemma do_ops_DI : forall ops c s codes codes' c' s', do_ops reset kind ops c s codes = (codes', c', s') ->
-  CI c -> DI (cdb c) -> done c = false -> PoolDI s -> done c' = true -> PoolDI s'.
-Proof.
-  induction ops as [|o r IH]; intros c s codes codes' c' s' H HC HD Hd HP Hdn; cbn [do_ops] in H.
-  - inversion H; subst. congruence.
-  - destruct (do_op reset kind o c s) as [[code c1] s1] eqn:E.
-    destruct (do_op_spec _ _ _ _ _ _ E HC HD Hd) as (A1 & A2 & A3 & A4 & A5).
-    destruct (done c1) eqn:Ed.
-    + inversion H; subst. eapply do_op_DI; eauto.
-    + eapply IH; eauto. unfold PoolDI. rewrite A4; auto.
-Qed.
-
-(* ---- one user *)
-Definition PoolAll (s : st) : Prop := PoolIso s /\ PoolDI s /\ (reset <> RNone -> PoolOk s).
-
-Lemma checkout_spec : forall s, PoolAll s ->
-  let d := fst (checkout s) in let s0 := snd (checkout s) in
-  iso_default d /\ DI d /\ (reset <> RNone -> pristine d = true) /\
-  idle s0 = None /\ twr_unsound s0 = twr_unsound s.
-Proof.
-  intros s (P1 & P2 & P3). unfold checkout, PoolIso, PoolDI, PoolOk in *. destruct (idle s) as [d|]; cbn.
-  - split; [exact P1|]. split; [exact P2|]. split; [exact P3|]. repeat split.
-  - split; [split; reflexivity|]. split; [intros H; discriminate H|]. split; [reflexivity|]. repeat split.
-Qed.
-
-Lemma user_spec : forall ops s, PoolAll s ->
-  let s' := snd (user reset kind ops s) in
-  PoolAll s' /\ Up s s'.
-Proof.
-  intros ops s HP. unfold user.
-  destruct (checkout_spec s HP) as (C1 & C2 & C3 & C4 & C6).
-  destruct (checkout s) as [d s0] eqn:Ec. cbn [fst snd] in *.
-  set (s1 := mkst (idle s0) (nconn s0) (faults s0) [] (twr_unsound s0)).
-  destruct (do_ops reset kind ops (mkcst d None O false) s1 []) as [[codes c] s2] eqn:E.
-  assert (HC : CI (mkcst d None O false)) by (intros _; exact C1).
-  destruct (do_ops_spec _ _ _ _ _ _ _ E HC C2 eq_refl) as (A1 & A2 & A3 & A4 & A5).
-  assert (U01 : Up s s1) by (unfold Up; subst s1; cbn; rewrite C6; auto).
-  cbn [snd]. destruct (done c) eqn:Ed.
-  - destruct (A5 eq_refl) as [B1 B2]. split; [|eapply Up_trans; eauto].
-    split; [exact B1|]. split; [|exact B2].
-    eapply do_ops_DI; eauto. unfold PoolDI; subst s1; cbn. rewrite C4. exact I.
-  - (* never returned: the garbage collector finalises the fairy *)
-    destruct (finalize_end (cdb c) (nfin c) false s2 A1 A2) as (G1 & G2 & G3); [intros; discriminate|].
-    split; [|eapply Up_trans; [exact U01|]; eapply Up_trans; eauto].
-    split; [exact G2|]. split; [apply finalize_DI; auto|exact G3].
-Qed.
-
-Lemma run_spec : forall us s, PoolAll s -> PoolAll (run reset kind us s) /\ Up s (run reset kind us s).
-Proof.
-  induction us as [|u r IH]; intros s HP; cbn [run].
-  - split; auto. apply Fr_Up, Fr_refl.
-  - destruct (user_spec u s HP) as [A1 A2]. destruct (IH _ A1) as [B1 B2]. split; auto. eapply Up_trans; eauto.
-Qed.
-
-Lemma init_PoolAll : forall fl, PoolAll (init fl).
-Proof. intros; unfold PoolAll, PoolIso, PoolDI, PoolOk; cbn; auto. Qed.
-
-(* ---------------------------------------------------------------- the theorems *)
-(* clean_on_checkout: with reset_on_return enabled, for every history of users and every fault
-   script, the connection handed to the next checkout is pristine *)
-Theorem clean_on_checkout : reset <> RNone -> forall us fl,
-  pristine (next_checkout (run reset kind us (init fl))) = true.
-Proof.
-  intros Hr us fl. destruct (run_spec us _ (init_PoolAll fl)) as [HP _].
-  destruct (checkout_spec _ HP) as (_ & _ & C3 & _). exact (C3 Hr).
-Qed.
-
-(* characteristics_restored: whatever the reset style: the next checkout sees the default isolation
-   level / autocommit setting *)
-Theorem characteristics_restored : forall us fl,
-  iso_default (next_checkout (run reset kind us (init fl))).
-Proof.
-  intros us fl. destruct (run_spec us _ (init_PoolAll fl)) as [HP _].
-  destruct (checkout_spec _ HP) as (C1 & _). exact C1.
-Qed.
-
-(* ... and while a connection is checked out every characteristic that was set has a pending finaliser *)
-Theorem finaliser_pending : forall ops d s codes c s',
-  iso_default d -> DI d ->
-  do_ops reset kind ops (mkcst d None O false) s [] = (codes, c, s') ->
-  nfin c = O -> iso_default (cdb c).
-Proof.
-  intros ops d s codes c s' Hd HD H.
-  assert (HC : CI (mkcst d None O false)) by (intros _; exact Hd).
-  destruct (do_ops_spec _ _ _ _ _ _ _ H HC HD eq_refl) as (A1 & _). exact A1.
-Qed.
-
-(* reset_exactly_once_or_skipped_soundly: transaction_was_reset=True never reaches _reset over an open
-   DBAPI transaction *)
-Theorem reset_skipped_soundly : forall us fl,
-  twr_unsound (run reset kind us (init fl)) = false.
-Proof.
-  intros us fl. destruct (run_spec us _ (init_PoolAll fl)) as [_ U].
-  destruct (twr_unsound (run reset kind us (init fl))) eqn:E; auto. apply U in E. cbn in E. discriminate.
-Qed.
-
 End P.
